@@ -53,6 +53,9 @@ def classify_tagged(msg, metas):
     return None
 
 
+_OPEN_KEYS = None
+
+
 def classify_source(o, msg):
     """Known-finding key for a C03 rejection that is explained by a construct of the source network (tags of
     netgen_ext.source_tags) together with the shape of the rejection, or None.
@@ -65,19 +68,34 @@ def classify_source(o, msg):
       position is ignored); tflite_model_semantic._get_slice_offsets indexes them by *input* dimension, so with a new axis
       that is not the last entry the slice read by the consumer is a different one."""
     tags = o.get("src_tags") or []
+    cands = []
     # round 5 (rank sweep; repairs pending, keys open while the patch still applies forward - harness/pending.py)
     window = re.search(r"IFM2?: bytes? |touches byte|expected tensor", msg)
     if "unpack-negative-axis" in tags and window:
-        return "unpack-negative-axis-read-window-misplaced"
+        cands.append("unpack-negative-axis-read-window-misplaced")
     if "slice-size-minus-one" in tags and window:
-        return "slice-size-minus-one-read-window-misplaced"
+        cands.append("slice-size-minus-one-read-window-misplaced")
     if "fc-keep-num-dims-rank4-batch>1" in tags and re.search(r"expected tensor", msg):
-        return "fc-keep-num-dims-rank4-result-rows-not-written"
+        cands.append("fc-keep-num-dims-rank4-result-rows-not-written")
     if "npu-box-batch>1" in tags and re.search(r"(step \d+ CPU \S+|op \d+ IFM2?): byte \d+ of region \d+: expected tensor", msg):
-        return "accelerated-box-with-batch>1-only-batch-0-processed"
+        cands.append("accelerated-box-with-batch>1-only-batch-0-processed")
     if "strided-slice-new-axis-not-trailing" in tags and re.search(r"op \d+ IFM: byte", msg):
-        return "strided-slice-new-axis-mask-begin-end-indexed-by-input-dimension"
-    return None
+        cands.append("strided-slice-new-axis-mask-begin-end-indexed-by-input-dimension")
+    # a construct whose defect has been repaired must not claim a rejection that belongs to another, still open, finding of
+    # the same network (SLICE with size -1 AND a batch > 1 box: the first is repaired, the second is open)
+    global _OPEN_KEYS
+    if _OPEN_KEYS is None:
+        _OPEN_KEYS = {k["key"] for k in common.load_known_findings()}
+        try:
+            import pending
+            for prop in ("C02", "C03", "C12"):
+                _OPEN_KEYS |= set(pending.pending_keys(prop))
+        except Exception:
+            pass
+    for k in cands:
+        if k in _OPEN_KEYS:
+            return k
+    return cands[0] if cands else None
 
 
 def parse_answer(ans):
